@@ -38,7 +38,7 @@ Proof.
            change (TFun TNum TNum) with (subst 0 TNum (TFun (TVar 0) (TVar 0))).
            apply T_Inst. apply T_Var. reflexivity.
     + apply T_Arr. constructor.
-      * apply T_Rec. repeat constructor.
+      * apply T_Rec; [repeat constructor; simpl; tauto|repeat constructor].
       * constructor; [|constructor]. apply T_Cast; [|reflexivity]. apply T_Untyped. reflexivity.
 Qed.
 
